@@ -26,6 +26,8 @@ def run(ctx):
     # with a drain on attach the model satisfies FilteredOnly
     ctx.tlc_mc("AfpacketSource", "MC_Afpacket_asfound", workers=2, timeout=300, expect_violation="FilteredOnly")
     ctx.tlc_mc("AfpacketSource", "MC_Afpacket_drain", workers=2, timeout=300)
+    ctx.tlc_mc("MC_ScanRun", "MC_ScanRun", workers=8, timeout=900)
+    ctx.tlc_mc("MC_ScanRun", "MC_ScanRun_attachWindow", workers=2, timeout=300, expect_violation="NoForeign")
     binary = ctx.go_build_test("./command")
     trace = os.path.join(ctx.scratch, "c03-trace.ndjson")
     rc, out = ctx.go_run_test(binary, "^TestVfReplyShape$", env={"VF_OUT": trace, "VERIF_SEED": ctx.seed, "VERIF_TIER": ctx.tier}, timeout=2400)
@@ -71,3 +73,4 @@ def run(ctx):
     # socket-level tier: the filter / processor wiring of every packet command on a real AF_PACKET socket with kernel BPF, per chunk
     n3, rej = wt.run_wire(ctx, select=lambda s: s["expect"]["kind"] == "packet" and (s["inject"] or s.get("flood")), label="c03w", focus="reply")
     wt.report(ctx, "C03", rej)
+    wt.scanrun_validate(ctx, "C03", "c03s")
